@@ -24,6 +24,8 @@ CLAIMED = {
              note="Trusted: the fresh-copy construction (Shannon expansion from the truth table; recompilation of the same CNF for top-down), exact weights. The oracle does not judge correctness of the fresh answer."),
  "C11": dict(section="5 C11", text="Seeded simulation in which one operation history is executed in lock-step on seven builders (two BDD orders, compressed and uncompressed SDDs under two vtrees, a hash-identified SDD builder, a standard and a hash-identified top-down builder under two decision orders): every result's semantic hash under the three exported 32/64-bit primes must equal the defining sum over the models of the function the diagram denotes (library's public weight map), negations hash to 1-h, cached hashes requested at random points of the history equal recomputation, and the hash-identified builders must return the function the operation names and report eq for equal functions. Tiny tables, cache forgetting and early growth are injected. Sampling evidence.",
              note="Trusted: truth-table model, defining-sum implementation (128-bit modular arithmetic), diagram readers. Only equal-function => equal-hash is asserted. <= 6 variables."),
+ "C18": dict(section="5 C18", text="Seeded simulation of C-API call sequences against the real extern \"C\" symbols (linked from the rlib) with a native RobddBuilder twin receiving the corresponding Rust calls: same truth table and canonical structure for every result, same eq / predicates / top variable / children, same node and model counts, bit-identical real / complex / polynomial weighted counts with weight tables built and read back through the C setters/getters, same JSON and debug strings. Panics inside extern \"C\" abort the process; the supervisor isolates and reports the run. Sampling evidence.",
+             note="Trusted: the twin construction (which native call corresponds to which C function), truth-table model. The harness dereferences the boxed BddPtr results to read the diagrams."),
 }
 
 NA = {
